@@ -802,3 +802,88 @@ def canonical_continue(prog):
                 if changed:
                     break
     return n
+
+
+# ----------------------------------------------------------------------------- std::any_of guard -> element loop
+def _iter_offset(e):
+    """begin()+k / end() of a plain container lvalue -> (container expression, offset expression or 'end')."""
+    e = ir.strip_casts(e)
+    while e.get('k') in ('Construct', 'Copy') and (e.get('args') or e.get('e')):
+        e = ir.strip_casts(e['args'][0]) if e.get('k') == 'Construct' else ir.strip_casts(e['e'])
+    if e.get('k') == 'Call' and e.get('kind') == 'method' and (e.get('callee') or {}).get('name') in ('begin', 'cbegin', 'end', 'cend'):
+        ob = ir.strip(e['obj'])
+        if ob.get('k') in ('Ref', 'Member'):
+            return ob, ('end' if e['callee']['name'] in ('end', 'cend') else None)
+        return None
+    if e.get('k') == 'Call' and e.get('kind') == 'op' and e.get('op') == '+' and len(e.get('args', [])) == 2:
+        b = _iter_offset(e['args'][0])
+        if b is not None and b[1] is None:
+            return b[0], e['args'][1]
+    return None
+
+
+def _any_of_parts(e):
+    e = ir.strip_casts(e)
+    if not (e.get('k') == 'Call' and (e.get('callee') or {}).get('q') == 'std::any_of' and len(e.get('args', [])) == 3):
+        return None
+    first, last = _iter_offset(e['args'][0]), _iter_offset(e['args'][1])
+    lam = ir.strip_casts(e['args'][2])
+    while lam.get('k') in ('Construct', 'Copy') and (lam.get('args') or lam.get('e')):
+        lam = ir.strip_casts(lam['args'][0]) if lam.get('k') == 'Construct' else ir.strip_casts(lam['e'])
+    if first is None or last is None or lam.get('k') != 'Lambda' or ir.show(first[0]) != ir.show(last[0]):
+        return None
+    fn = lam['fn']
+    body = fn.get('body') or {}
+    stmts = body.get('body', []) if body.get('k') == 'Compound' else []
+    if len(fn.get('params', [])) != 1 or len(stmts) != 1 or stmts[0].get('k') != 'Return' or stmts[0].get('e') is None:
+        return None
+    return first[0], first[1], last[1], fn['params'][0], stmts[0]['e']
+
+
+def any_of_guards(prog):
+    """`if(std::any_of(c.begin()+a, c.begin()+b | c.end(), [..](const T& p){ return E(p); })) S` with S leaving the function on every
+    path (an error exit, a return) is the element loop `for(i = a; i < b; i++) if(E(c[i])) S`; also when the any_of result is first
+    stored in a local boolean that is only tested by the next statement."""
+    n = 0
+    for f in prog.all_functions(include_patterns=True):
+        if f.body is None:
+            continue
+        for comp in list(ir.walk_stmts(f.body)):
+            if comp.get('k') != 'Compound':
+                continue
+            seq = comp['body']
+            i = 0
+            while i < len(seq):
+                s = seq[i]
+                cond, then, span = None, None, 1
+                if s.get('k') == 'If' and s.get('else') is None and _terminates(_as_compound(s['then'])):
+                    cond, then = s['cond'], s['then']
+                    c0 = ir.strip_casts(cond)
+                    if c0.get('k') == 'Ref' and i > 0 and seq[i - 1].get('k') == 'Decl' and len(seq[i - 1]['decls']) == 1 \
+                            and seq[i - 1]['decls'][0]['id'] == c0.get('id') and seq[i - 1]['decls'][0].get('init') is not None:
+                        uses = sum(1 for x in _nodes(f.body) if x.get('k') == 'Ref' and x.get('id') == c0.get('id'))
+                        if uses == 1:
+                            cond, span = seq[i - 1]['decls'][0]['init'], 2
+                parts = _any_of_parts(cond) if cond is not None else None
+                if parts is None:
+                    i += 1
+                    continue
+                cont, lo, hi, par, expr = parts
+                l_ = s.get('l')
+                iv = {'k': 'Ref', 'name': 'i__any', 'id': 'anyof%s_%s' % (f.d.get('id'), l_), 'ty': 'unsigned long', 'rk': 'local', 'l': l_}
+                elem = {'k': 'Index', 'base': copy.deepcopy(cont), 'idx': copy.deepcopy(iv), 'ty': par.get('ty'), 'l': l_, 'q': 'std::vector::operator[]'}
+                test = _subst(expr, {par['id']: elem})
+                size = {'k': 'Call', 'kind': 'method', 'ty': 'unsigned long', 'l': l_, 'args': [], 'obj': copy.deepcopy(cont),
+                        'callee': {'name': 'size', 'q': 'std::vector::size', 'cls': 'std::vector', 'const': True, 'ret': 'unsigned long', 'sig': 'std::vector::size()const'}}
+                hi_e = size if hi == 'end' else copy.deepcopy(hi)
+                lo_e = {'k': 'Lit', 'lk': 'int', 'v': '0', 'ty': 'unsigned long', 'l': l_} if lo is None else copy.deepcopy(lo)
+                loop = {'k': 'For', 'l': l_,
+                        'init': {'k': 'Decl', 'l': l_, 'decls': [{'name': 'i__any', 'id': iv['id'], 'ty': 'unsigned long', 'tyw': 'unsigned long', 'l': l_, 'init': lo_e}]},
+                        'cond': {'k': 'Bin', 'op': '<', 'ty': 'bool', 'l': l_, 'lhs': copy.deepcopy(iv), 'rhs': hi_e},
+                        'inc': {'k': 'Un', 'op': '++', 'post': True, 'ty': 'unsigned long', 'l': l_, 'e': copy.deepcopy(iv)},
+                        'body': {'k': 'If', 'l': l_, 'cond': test, 'then': then, 'else': None}}
+                start = i - (span - 1)
+                seq[start:i + 1] = [loop]
+                n += 1
+                i = start + 1
+    return n
